@@ -185,7 +185,7 @@ func VerifC60_echo() {
 	default:
 		typ = ipv6.ICMPTypeEchoReply
 	}
-	n := vfLen("datalen", 0, 4)
+	n := vfLen("datalen", 0, 4+4*vfTier())
 	e := &Echo{ID: int(vfU16("id")), Seq: int(vfU16("seq")), Data: vfBytes("data", n)}
 	m := &Message{Type: typ, Code: int(vfU8("code")), Body: e}
 	var psh []byte
@@ -417,7 +417,7 @@ func c60ifiEq(a, b *InterfaceInfo) bool {
 func VerifC60_multipart() {
 	v6 := vfBool("v6")
 	proto := c60proto(v6)
-	n := vfLen("datalen", 0, 4)
+	n := vfLen("datalen", 0, 4+4*vfTier())
 	data := vfBytes("data", n)
 	var exts []Extension
 	switch vfChoice("extension", 3) {
@@ -538,7 +538,7 @@ func VerifC60_multipart() {
 }
 
 func VerifC60_simple() {
-	n := vfLen("datalen", 0, 4)
+	n := vfLen("datalen", 0, 4+4*vfTier())
 	data := vfBytes("data", n)
 	code := int(vfU8("code"))
 	switch vfChoice("kind", 4) {
